@@ -20,6 +20,7 @@ import Cx.DriverRevInner
 import Cx.DriverRevAnchored
 import Cx.DriverRevSuffixSet
 import Cx.DriverMultilineRevSuffix
+import Cx.DriverGuards
 /-! cxdrv — reads requests from stdin (one per line), writes one answer per line. -/
 
 def tokens (line : String) : List String := (line.trimAscii.toString.splitOn " ").filter (· ≠ "")
@@ -29,7 +30,7 @@ def handlers : List (List String → Option String) :=
   [Cx.DriverCompile.handle?, Cx.DriverLit.handle?, Cx.DriverPike.handle?, Cx.DriverFast.handle?, Cx.DriverCompDfa.handle?, Cx.DriverCompSim.handle?, Cx.DriverCost.handle?,
    Cx.DriverConfig.handle?, Cx.DriverCaps.handle?, Cx.DriverDfa.handle?, Cx.DriverUtf8Range.handle?, Cx.DriverRev.handle?, Cx.DriverRevSuffix.handle?,
    Cx.DriverRevInner.handle?, Cx.DriverRevAnchored.handle?, Cx.DriverRevSuffixSet.handle?, Cx.DriverMultilineRevSuffix.handle?, Cx.DriverMetaFind.handle?, Cx.DriverSeqOps.handle?,
-   Cx.DriverMetaFind2.handle?, Cx.DriverMetaFindAll.handle?]
+   Cx.DriverMetaFind2.handle?, Cx.DriverMetaFindAll.handle?, Cx.DriverGuards.handle?]
 
 def answer (line : String) : String :=
   let toks := tokens line
